@@ -152,11 +152,21 @@ def rand_pdu(rng, w, ep, size, force_kind=None):
         raw = pdugen.raw(kind, conf, f, towards_sender=ts)
     except Exception:  # noqa: BLE001  (a field combination the dependency refuses to build)
         return None, None, None
+    if not conf.crc_flag and kind != "FD" and rng.random() < 0.08:
+        # (File Data PDUs are left alone: a mutated offset of gigabytes only makes the filestore of the bench slow)
+        # byte-level mutation of the data field (behind the fixed header): whatever the dependency still parses is a PDU for the handlers
+        b = bytearray(raw)
+        lo = 4 + 2 * idw + conf.transaction_seq_num.byte_len
+        for _ in range(rng.choice([1, 1, 2, 3])):
+            if len(b) > lo:
+                b[rng.randrange(lo, len(b))] = rng.randrange(256)
+        raw = bytes(b)
+        f = dict(f, mutated_bytes=True)
     if kind == "MD" and f.get("src_name") and not conf.crc_flag and rng.random() < 0.15:
         # file names are byte strings on the wire: here one which is not valid UTF-8 (same length, so the PDU stays well-formed)
         name = w.src_path.name.encode() if rng.random() < 0.5 else w.dst_req_path.name.encode()
         if len(name) >= 3 and raw.count(name) >= 1:
-            raw = raw.replace(name, b"\xff\xfe" + name[2:], 1)
+            raw = raw.replace(name, (b"\xff\xfe" if rng.random() < 0.5 else b"n\x00") + name[2:], 1)  # not UTF-8 / an embedded NUL byte
             f = dict(f, binary_file_name=True)
     return kind, raw, {"kind": kind, "conf": [conf.source_entity_id.value, conf.dest_entity_id.value, conf.transaction_seq_num.value, idw], "ts": ts,
                        "f": {k: (v.hex() if isinstance(v, (bytes, bytearray)) else v) for k, v in f.items() if k not in ("src_name", "dst_name")}}
@@ -280,6 +290,8 @@ def run_fuzz(case):
                         obs["generated_pdu_not_parsable_by_dependency"] = obs.get("generated_pdu_not_parsable_by_dependency", 0) + 1
                         continue
                     actions_log.append(desc)
+                    if isinstance(desc, dict) and desc.get("f", {}).get("mutated_bytes"):
+                        obs["byte_mutated_pdus_accepted_by_the_parser"] = obs.get("byte_mutated_pdus_accepted_by_the_parser", 0) + 1
                     if isinstance(desc, dict) and desc.get("f", {}).get("binary_file_name"):
                         obs["metadata_pdus_with_non_utf8_file_name"] = obs.get("metadata_pdus_with_non_utf8_file_name", 0) + 1
                     keys["fuzzed"].append(f"{case['side']}|{step_name}|{kind}")
